@@ -484,8 +484,19 @@ def _scn_mutator(rng, run, cfg):
         yield op
 
 
-def _float(rng):
-    return rng.uniform(-1, 1)
+ZERO_KEYS = {"pos", "ori", "vel", "acc", "yaw", "slip", "steer", "c", "o", "vy"}
+
+
+def _signed_zeros(rng, node, p, key=None):
+    """Replace some real-valued leaves (positions, orientations, velocities, centres) by 0.0 or -0.0: two values
+    that are equal, hash alike and are written differently."""
+    if isinstance(node, dict):
+        return {k: _signed_zeros(rng, v, p, k) for k, v in node.items()}
+    if isinstance(node, list):
+        return [_signed_zeros(rng, v, p, key) for v in node]
+    if isinstance(node, float) and key in ZERO_KEYS and rng.chance(p):
+        return rng.choice([0.0, -0.0])
+    return node
 
 
 class C15(Property):
@@ -527,6 +538,12 @@ class C15(Property):
             spec = {"dt": 0.1, "network": net, "obstacles": obstacles, "tags": sorted(rng.subset(
                 ["URBAN", "HIGHWAY", "INTERSTATE", "COMFORT"], 0.5, at_least=1)),
                 "sid": {"country": "DEU", "map": f"Sim{j}", "map_id": j + 1}}
+            if rng.chance(0.5):
+                zr = rng.sub("zeros", j)
+                obstacles = _signed_zeros(zr, obstacles, 0.15)
+                net["signs"] = _signed_zeros(zr, net["signs"], 0.3)
+                net["lights"] = _signed_zeros(zr, net["lights"], 0.3)
+                spec["obstacles"] = obstacles
             pps = [gen.gen_planning_problem(rng, ids.take(), net) for _ in range(rng.randint(1, 2))]
             for pp in pps:
                 # the protobuf writer indexes the goal-lanelet table for every goal state: keep it complete
